@@ -513,6 +513,7 @@ type Contract struct {
 	Decreases map[int][]*Clause
 	Progress  map[int][]string
 	NoCall    bool // closure arguments are stored, not invoked, by this function
+	PureParams []string // func-typed parameters assumed to be pure functions of their arguments
 }
 
 type SpecFunc struct {
@@ -573,7 +574,7 @@ var clauseKeywords = map[string]bool{
 	"func": true, "requires": true, "ensures": true, "loop": true, "modifies": true, "trusted": true,
 	"pure": true, "inline": true, "noinline": true, "strings": true, "bytes": true, "panics": true, "bind": true, "sink": true,
 	"axiom": true, "log": true, "atomic": true, "guarded_by": true, "immutable": true, "must-close": true,
-	"opaque": true, "unroll": true, "yield-requires": true, "invariant": true, "seq-items": true, "private": true, "iface-ensures": true, "iface-pure": true, "lemma": true, "holds": true, "fn-sink": true, "nocall": true, "fn-type-pure": true, "producer": true, "closure": true, "package": true, "assume-return": true,
+	"opaque": true, "unroll": true, "yield-requires": true, "invariant": true, "seq-items": true, "private": true, "pure-param": true, "iface-ensures": true, "iface-pure": true, "lemma": true, "holds": true, "fn-sink": true, "nocall": true, "fn-type-pure": true, "producer": true, "closure": true, "package": true, "assume-return": true,
 }
 
 // LoadContractFile parses one contracts_verif.go file (or any file with //@ lines).
@@ -739,6 +740,10 @@ func (cs *ContractSet) LoadContractFile(path, pkgPath string) error {
 		case "private":
 			for _, pn := range strings.Split(rest, ",") {
 				cur.Private = append(cur.Private, strings.TrimSpace(pn))
+			}
+		case "pure-param":
+			for _, pn := range strings.Split(rest, ",") {
+				cur.PureParams = append(cur.PureParams, strings.TrimSpace(pn))
 			}
 		case "unroll":
 			parts := strings.Fields(rest)
